@@ -74,7 +74,7 @@ NoTrial == [from |-> NoPt, rhoUsed |-> NoRho, lambUsed |-> -1, dt |-> -1, kind |
             pt |-> NoPt, lambNext |-> -1, accepted |-> FALSE, cause |-> "none"]
 InnerInit == [k |-> 0, fault |-> FALSE, dl |-> FALSE, nev |-> 0, ls |-> 0, rd |-> 0]
 PostInit == [n |-> FALSE, w |-> FALSE, p |-> FALSE]
-NoPen == [nextRho |-> NoRho, ok |-> FALSE, ynorm |-> 0]
+NoPen == [nextRho |-> NoRho, ok |-> FALSE, ynorm |-> 0, entry |-> <<0, 0>>]
 ClkInit == [t |-> 0, site |-> "none", expired |-> FALSE, fresh |-> FALSE, reads |-> 0]
 NoResult == [status |-> "none", x |-> NoPt, iterations |-> -1, accepted |-> -1]
 
@@ -388,7 +388,7 @@ PenaltyUpdate(r, e) ==
   /\ Cl("M", "penalty.prho", cfg[r].pen # "Constant" => e.prhoBefore = prho[r])
   /\ PolicyM(r, e)
   /\ PS(<< <<"P:C16", "policy.monotone", Le(e.prhoBefore, e.prhoAfter)>> >> \o PolicyP(r, e))
-  /\ pen' = [pen EXCEPT ![r] = [nextRho |-> e.nextRho, ok |-> e.ok, ynorm |-> e.ynorm]]
+  /\ pen' = [pen EXCEPT ![r] = [nextRho |-> e.nextRho, ok |-> e.ok, ynorm |-> e.ynorm, entry |-> <<e.entry[1], e.entry[2]>>]]
   /\ prho' = [prho EXCEPT ![r] = e.prhoAfter]
   /\ filt' = [filt EXCEPT ![r] = IF cfg[r].pen \in {"ObjFilter", "LagFilter"} THEN ToSet(e.filtAfter) ELSE @]
   /\ post' = [post EXCEPT ![r] = [@ EXCEPT !.p = TRUE]]
